@@ -1,12 +1,16 @@
 #!/bin/bash
-# try_mutant.sh <ID> <patch.diff> [tier]: apply a seeded change to /repo, run the check, undo it.
+# try_mutant.sh <ID> <patch.diff (absolute path)> [tier] [lines]: apply a seeded change, run the check,
+# undo it. By default the change is applied to /repo itself (git -C /repo apply; checkout afterwards).
+# With MUT_REPO=<scratch worktree of /repo> it is applied there and the check runs with
+# VERIF_REPO=$MUT_REPO, leaving /repo untouched (used while a long run is reading /repo).
 set -u
 ID=$1; PATCH=$2; TIER=${3:-quick}
-cd /repo || exit 9
-if ! git diff --quiet; then echo "/repo has uncommitted changes; refusing"; exit 9; fi
-git apply "$PATCH" || { echo "patch does not apply"; exit 9; }
-cd /verif && ./check "$ID" --tier "$TIER" > /tmp/try_$ID.log 2>&1; RC=$?
-git -C /repo checkout -- . 
+R=${MUT_REPO:-/repo}
+cd $R || exit 9
+if ! git diff --quiet; then echo "$R has uncommitted changes; refusing"; exit 9; fi
+git apply "$PATCH" 2>/dev/null || patch -p1 -F3 -s < "$PATCH" || { echo "patch does not apply"; git checkout -- .; exit 9; }
+cd /verif && VERIF_REPO=$R ./check "$ID" --tier "$TIER" > /tmp/try_$ID.log 2>&1; RC=$?
+git -C $R checkout -- . 
+git -C $R clean -fdq -- packages examples 2>/dev/null
 git -C /verif checkout -- evidence 2>/dev/null  # evidence of a run against a seeded change is not kept
-git -C /repo clean -fdq -- packages examples 2>/dev/null
 echo "exit=$RC"; grep -E "^VIOLATION|signature|INCONCLUSIVE|HELD" /tmp/try_$ID.log | cut -c1-300 | head -${4:-12}
